@@ -719,7 +719,53 @@ func consumerDrains(p *Program, fs *FuncSrc, recv *ast.UnaryExpr, base ast.Expr)
 		if got != nil {
 			if rs, ok := s.(*ast.RangeStmt); ok {
 				if id, ok := rs.X.(*ast.Ident); ok && info.ObjectOf(id) == got {
-					return true, "receive is followed by " + baseStr + ".Get() and a forward range over the result (queue order, each element once)"
+					// the batch has been taken out of the queue: leaving the
+					// loop early while the consumer lives on loses the rest
+					early := ""
+					var depth func(n ast.Node, inner int)
+					depth = func(n ast.Node, inner int) {
+						ast.Inspect(n, func(m ast.Node) bool {
+							switch x := m.(type) {
+							case *ast.FuncLit:
+								return false
+							case *ast.ForStmt:
+								if m != n {
+									depth(x.Body, inner+1)
+									return false
+								}
+							case *ast.RangeStmt:
+								if m != n {
+									depth(x.Body, inner+1)
+									return false
+								}
+							case *ast.SwitchStmt, *ast.TypeSwitchStmt, *ast.SelectStmt:
+								if m != n {
+									// an unlabelled break inside leaves the switch, not the loop
+									var b ast.Node
+									switch y := x.(type) {
+									case *ast.SwitchStmt:
+										b = y.Body
+									case *ast.TypeSwitchStmt:
+										b = y.Body
+									case *ast.SelectStmt:
+										b = y.Body
+									}
+									depth(b, inner+1)
+									return false
+								}
+							case *ast.BranchStmt:
+								if x.Tok == token.GOTO || (x.Tok == token.BREAK && (inner == 0 || x.Label != nil)) {
+									early = p.PosStr(x.Pos())
+								}
+							}
+							return true
+						})
+					}
+					depth(rs.Body, 0)
+					if early != "" {
+						return false, "the batch returned by " + baseStr + ".Get() is abandoned by a break/goto at " + early + " while the consumer keeps running: the actions queued behind it are lost"
+					}
+					return true, "receive is followed by " + baseStr + ".Get() and a forward range over the result (queue order, each element once, left early only by returning)"
 				}
 			}
 		}
